@@ -675,6 +675,12 @@ func (e *Env) call(x *Expr) TTerm {
 			e.g.Global(n, "Iface", true)
 			return TTerm{S: n, Sort: "Iface"}
 		}
+	case "boundAt":
+		// boundAt(s, i): byte offset i of the window s is a code-point boundary of its text
+		if need(2) && a[0].Sort == "Str" {
+			return B("(isbound (sbase " + a[0].S + ") (+ (slo " + a[0].S + ") " + a[1].S + "))")
+		}
+		return e.fail("boundAt(string, offset)")
 	case "byteOf":
 		// byteOf(s, i): s[i] through a function symbol, for use under quantifiers with the trigger {byteOf(s, i)}
 		if need(2) && a[0].Sort == "Str" {
@@ -840,11 +846,11 @@ func (e *Env) call(x *Expr) TTerm {
 		if need(1) {
 			return TTerm{S: "(select " + e.famOf(e.g.CellFamily("Dec")) + " " + a[0].S + ")", Sort: "Dec"}
 		}
-	case "bldLen", "bldRunes", "bldOk":
+	case "bldLen", "bldRunes", "bldOk", "bldOkPrev", "bldLast":
 		if need(1) {
-			fam := map[string]string{"bldLen": "B_len", "bldRunes": "B_runes", "bldOk": "B_ok"}[x.Name]
+			fam := map[string]string{"bldLen": "B_len", "bldRunes": "B_runes", "bldOk": "B_ok", "bldOkPrev": "B_okprev", "bldLast": "B_last"}[x.Name]
 			srt := "Int"
-			if fam == "B_ok" {
+			if fam == "B_ok" || fam == "B_okprev" {
 				srt = "Bool"
 			}
 			e.g.Family(fam, "(Array Int "+srt+")")
